@@ -185,6 +185,21 @@ impl Tokens
 			line_number: 0,
 		});
 		tokens.errors.push((error, TokenId(0)));
+		// The parser relies on every token stream ending in two EndOfSource.
+		for _ in 0..2
+		{
+			tokens.tokens.push(BaseToken::EndOfSource);
+			tokens.token_vaps.push(ValueTypeAndPayloadId::new(
+				ValueTypeKeyword::NoKeyword,
+				PayloadId(0),
+			));
+			tokens.token_locations.push(TokenLocation {
+				start: 0,
+				end: 0,
+				start_of_line: 0,
+				line_number: 0,
+			});
+		}
 		tokens
 	}
 
